@@ -51,6 +51,12 @@ pub trait CapNo<X> {
     fn may_cross_threads(&self) -> bool {
         false
     }
+    fn into_pieces<'a>(&self, x: X) -> Result<Vec<Box<dyn Opaque + 'a>>, X>
+    where
+        X: 'a,
+    {
+        Err(x)
+    }
     fn boxed_opaque<'a>(&self, x: X) -> Result<Box<dyn Opaque + Send + 'a>, X>
     where
         X: 'a,
@@ -258,5 +264,21 @@ where
 {
     pub fn iter_shared_of<'x>(&self, c: &'x C) -> Option<Vec<&'x T>> {
         Some(c.into_iter().collect())
+    }
+}
+impl<X: IntoIterator> Cap<X> {
+    /// consume the value through its by-value iterator, keep every item, let the iterator go
+    pub fn into_pieces<'a>(&self, x: X) -> Result<Vec<Box<dyn Opaque + 'a>>, X>
+    where
+        X: 'a,
+        X::Item: 'a,
+    {
+        let mut it = x.into_iter();
+        let mut items: Vec<Box<dyn Opaque + 'a>> = Vec::new();
+        for i in it.by_ref() {
+            items.push(Box::new(i));
+        }
+        drop(it);
+        Ok(items)
     }
 }
